@@ -82,6 +82,8 @@ func main() {
 			name = os.Args[2]
 		}
 		os.Exit(selfcheck(name))
+	case "envchild":
+		os.Exit(envChild(os.Args[2:]))
 	case "firstuse":
 		os.Exit(firstUseChild(os.Args[2:]))
 	case "auxrace":
